@@ -1,5 +1,24 @@
+"""Shadow-hash lemma shared by C04 and C05 (contracts/shadow.py): QF_BV over the real source of decode_address/encode_offset."""
+from ..pyvc.driver import discharge_all
+from ..pyvc.engine import Unsupported
+
+
 def add_to(run):
-    pass
+    from contracts import shadow as c
+    obs = []
+    for f in c.ALL:
+        try:
+            fv = f()
+        except Unsupported as e:
+            run.functions["amaranth_soc.csr.bus.Multiplexer._Shadow.decode_address/encode_offset"] = f"unsupported: {e} (the per-layout L2 clauses decide)"
+            run.bounded_notes.append(f"shadow hash lemma: source outside the bit-vector subset on this tree ({e}); L2 layouts decide")
+            return
+        run.functions["amaranth_soc." + fv.qualname] = f"decided for all ranges/sizes/addresses below 2**15 (QF_BV, {len(fv.obs)} obligations): bounded in width"
+        obs += fv.obs
+    run.require("csr.bus.Multiplexer._Shadow.decode_address/encode_offset::round-trip:encode_offset(decode_address(a))==a")
+    run.assumptions.append("shadow hash lemma: 32-bit two's-complement evaluation of the real source equals Python integers for addresses/sizes below 2**15 "
+                           "(bound stated; exhaustive within); ceil_log2 as a ghost value with its defining inequalities")
+    discharge_all(run, obs, timeout_ms=60000)
 
 
 def add_termination(run):
